@@ -351,6 +351,8 @@ def run(ctx, rep):
     drain_rules(facts, rep)
     seq_rules(facts, rep)
     extra_tolerance_rules(facts, rep)
+    from rules.shared_zip64 import pair_rules
+    pair_rules(ctx, facts, rep, rule="C10-Z64", side="read")      # a streamed large_file entry's window is the ZIP64 compressed size, read in APPNOTE order
     from rules.C19 import flag_decode_rules
     flag_decode_rules(facts, rep)      # reported as C10/C19-FLAG: the stream's local-header parser picks the name decoder by bit 11 exactly as the central parser does
     rep.floor("C10-EXTRA", 2)
